@@ -8,6 +8,7 @@ from depsim.runner import Violation, add_set, bump, digest
 class C11(ParserSessionProp):
     id = 'C11'
     replica_rate = {'quick': 0.08, 'thorough': 0.25}
+    big_batch_rate = {'quick': 0.05, 'thorough': 0.15}
     rule = ('case = (sentence, call context) response of the real depccg.parsing.run inside a multi-call '
             'session (shared argument objects; seeded batch = subset/permutation/repetition; processes 1-5; '
             'max_chunk_size 0-20; SimPool schedule: worker assignment, service times, stalls, reordered '
